@@ -81,6 +81,20 @@ def hierarchies(tier: str) -> list[tuple]:
     return out
 
 
+# field names are an input too: the accessors are generated as source text, and a field may be
+# called like anything that text uses for itself (loop variables, parameters, helper names)
+HOSTILE_NAMES = ["o", "i", "f", "c", "v", "n", "x", "k", "d", "val", "value", "item", "node", "child", "cls", "clz", "fld", "sort_keys", "skip_id", "skip_origin", "skip_non_compare", "skip_non_init", "yield_", "ret", "_fld_zt"]
+
+
+def hostile_hierarchies() -> list[tuple]:
+    hs = []
+    for hname in HOSTILE_NAMES:
+        hs.append(((("zt", "ct"), (hname, "co"), ("at", "ct")),))  # single child between two tuples (declaration and name order differ)
+        hs.append((((hname, "ct"), ("zs", "co"), ("as_", "cu")),))  # tuple child of that name
+        hs.append((((hname, "p"), ("zt", "ct"), ("b1", "pninc")), (("a2", "co"),)))  # property of that name, subclass adds a child
+    return hs
+
+
 def KIND_REQUIRED_CONFLICT(old: str, new: str) -> bool:
     # a defaulted field cannot be re-declared in a way that breaks dataclass ordering;
     # all kinds used for overriding have defaults, so nothing conflicts
@@ -383,6 +397,9 @@ def spec(tier: str, seed: int) -> Spec:
     fchunk = 6
     for k in range(0, len(fresh), fchunk):
         fams.append(Family(f"fresh[{k}:{k+fchunk}]", make_harness(fresh[k : k + fchunk], fresh=True), variables="as above with classes re-created per path; selector: which class of the hierarchy is used first"))
+    hh = hostile_hierarchies()
+    for k in range(0, len(hh), 15):
+        fams.append(Family(f"field-names[{k}:{k + 15}]", make_harness(hh[k : k + 15], fresh=False), variables="as above; selector: a field named like an identifier the generated accessor source may use itself (o, i, sort_keys, skip_id, cls ...)"))
     fams.append(Family("multiple-inheritance", mi_harness, variables="lazy flags; selectors: classes used first, queried class, part, variant (fresh classes with multiple inheritance, empty bodies, override-only subclasses)"))
     return Spec(
         families=fams,
